@@ -399,7 +399,8 @@ Definition chk_spec (x : CaseT) : bool :=
   let '(c, w, (k, d), pyallowed, pydev, badfin) := x in Bool.eqb (allowed c w) pyallowed.
 Definition chk_dev (x : CaseT) : bool :=
   let '(c, w, (k, d), pyallowed, pydev, badfin) := x in
-  negb (completes modelled_gates c w) || Bool.eqb (uses_dev modelled_gates c w) pydev.
+  (* only meaningful when the implementation completed (the harness classifies completed runs) *)
+  negb (Z.eqb k 0) || negb (completes modelled_gates c w) || Bool.eqb (uses_dev modelled_gates c w) pydev.
 '''
 
 
